@@ -241,12 +241,17 @@ fn c01_shard(ctx: &Ctx, out: &mut ShardOut) {
 
 /// concurrent `HashSet` programs through all four facades (setconc.rs)
 fn c01_set_run(ctx: &Ctx, pool: &Pool, out: &mut ShardOut) {
+    set_run(ctx, pool, out, "lin-set", false, 480, 8_000)
+}
+
+/// `walks`: programs also iterate and serialise the set (weak-consistency judge, used by C07)
+pub fn set_run(ctx: &Ctx, pool: &Pool, out: &mut ShardOut, sub: &'static str, walks: bool, quick: u64, thorough: u64) {
     use crate::setconc as sc;
     let before = out.violations.len();
     let (single, double, tapes) = (ctx.by_tier(300, 3000) as usize, ctx.by_tier(60, 1500) as usize, ctx.by_tier(16, 120) as usize);
     let seed = ctx.shard_seed(93);
-    drive_n(ctx, "lin-set", ctx.shard_seed(4), ctx.share(ctx.by_tier(480, 8_000)) as u32, 120, sc::prog_strategy(3, 3), out, |prog| {
-        ctx.mark_inflight("lin-set", &serde_json::to_string(&sc::SetCase { prog: prog.clone(), schedule: None, budget: Some((single, double, tapes, seed)) }).unwrap());
+    drive_n(ctx, sub, ctx.shard_seed(4), ctx.share(ctx.by_tier(quick, thorough)) as u32, 120, sc::prog_strategy(3, 3, walks), out, |prog| {
+        ctx.mark_inflight(sub, &serde_json::to_string(&sc::SetCase { prog: prog.clone(), schedule: None, budget: Some((single, double, tapes, seed)) }).unwrap());
         let ex = sc::explore(pool, prog, single, double, tapes, seed);
         match ex.failure {
             Some((sw, prop, msg)) => Err(CaseFail { prop, msg: format!("{} [after preemptions {:?}]", msg, sw) }),
@@ -267,13 +272,13 @@ fn c01_set_run(ctx: &Ctx, pool: &Pool, out: &mut ShardOut) {
             if let Ok(prog) = serde_json::from_value::<sc::SetProg>(case) {
                 let ex = sc::explore(pool, &prog, single, double, tapes, seed);
                 let schedule = ex.failure.map(|(sw, _, _)| sc::minimize(pool, &prog, &sw));
-                v.replay = serde_json::json!({"sub": "lin-set", "case": sc::SetCase { prog, schedule, budget: None }});
+                v.replay = serde_json::json!({"sub": sub, "case": sc::SetCase { prog, schedule, budget: None }});
             }
         }
     }
 }
 
-fn c01_set_replay(pool: &Pool, case: &Value) -> Result<(), CaseFail> {
+pub fn c01_set_replay(pool: &Pool, case: &Value) -> Result<(), CaseFail> {
     use crate::setconc as sc;
     let cc: sc::SetCase = match serde_json::from_value::<sc::SetCase>(case.clone()) {
         Ok(c) => c,
